@@ -2,7 +2,7 @@
    (for every frame, not only the well-formed ones), and the token semantics of Any's members are
    the corresponding pieces of a_step. *)
 From Common Require Import Prelude.
-From C09 Require Import Model Micro.
+From C09 Require Import Model Env Micro.
 Local Open Scope N_scope.
 
 Ltac frames f :=
@@ -72,3 +72,12 @@ Lemma link_any_str w i x :
 Proof. intro H. cbn [a_step]. rewrite H. destruct x; reflexivity. Qed.
 Lemma link_any_copy w x : any_copy_sem model_holder (model_any AMCopyCtor) w x = Some (a_clone w x).
 Proof. reflexivity. Qed.
+
+Lemma link_env atoi atof k str i : env_sem atoi atof (model_env k) k str i = Some (m_getenv atoi atof k str i).
+Proof. destruct k; reflexivity. Qed.
+(* a payload type without operator== (the model's tag 4) never compares equal, not even to itself *)
+Lemma link_noeq h o : h_tag h = 4 -> is_same h o = false.
+Proof.
+  intro H. destruct o as [h'|]; [|reflexivity]. unfold is_same. rewrite H.
+  change (has_eq 4) with false. rewrite andb_false_r. reflexivity.
+Qed.
